@@ -1,1 +1,2 @@
 import Proofs.SpiceProofs
+import Proofs.LedgerReach
